@@ -649,14 +649,19 @@ func (idx *indexer) indexSince(txID uint64) error {
 
 			n := serializeIndexableEntry(b[:], txmd, e, kvmd)
 
-			idx._kvs[indexableEntries].K = targetKey
+			// the key may be a slice into the reused idx.tx holder, which the next readTx
+			// of this bulk overwrites: it must be copied
+			idx._kvs[indexableEntries].K = append(idx._kvs[indexableEntries].K[:0], targetKey...)
 			idx._kvs[indexableEntries].V = b[:n]
 			idx._kvs[indexableEntries].T = txID + uint64(i)
 
 			indexableEntries++
 			txIndexedEntries++
 
-			if idx.spec.InjectiveMapping && txID > 1 {
+			// the transaction being indexed (txID is only the first one of the bulk)
+			entryTxID := txID + uint64(i)
+
+			if idx.spec.InjectiveMapping && entryTxID > 1 {
 				// wait for source indexer to be up to date
 				sourceIndexer, err := idx.store.getIndexerFor(sourceKey)
 				if errors.Is(err, ErrIndexNotFound) {
@@ -665,13 +670,16 @@ func (idx *indexer) indexSince(txID uint64) error {
 					return err
 				}
 
-				err = sourceIndexer.WaitForIndexingUpto(context.Background(), txID-1)
-				if err != nil {
-					return err
+				// an index can not wait for itself (it is at txID-1 while this bulk is prepared)
+				if sourceIndexer != idx {
+					err = sourceIndexer.WaitForIndexingUpto(context.Background(), entryTxID-1)
+					if err != nil {
+						return err
+					}
 				}
 
-				// the previous entry as of txID must be deleted from the target index
-				_, prevTxID, _, err := sourceIndexer.index.GetBetween(sourceKey, 1, txID-1)
+				// the previous entry as of entryTxID must be deleted from the target index
+				_, prevTxID, _, err := sourceIndexer.index.GetBetween(sourceKey, 1, entryTxID-1)
 				if err == nil {
 					prevEntry, prevTxHdr, err := idx.store.ReadTxEntry(prevTxID, e.key(), false)
 					if err != nil {
@@ -714,7 +722,7 @@ func (idx *indexer) indexSince(txID uint64) error {
 
 					n := serializeIndexableEntry(b[:], txmd, prevEntry, kvmd.Bytes())
 
-					idx._kvs[indexableEntries].K = targetPrevKey
+					idx._kvs[indexableEntries].K = append(idx._kvs[indexableEntries].K[:0], targetPrevKey...)
 					idx._kvs[indexableEntries].V = b[:n]
 					idx._kvs[indexableEntries].T = txID + uint64(i)
 
